@@ -180,3 +180,28 @@ func VP_TOF_checksum() {
 	vpAssert((sum+int(last-'0'))%10 == 0, "the appended digit makes the 3-1 weighted sum a multiple of ten")
 	vpCover("accepted", true)
 }
+
+
+// C15 / C16: purity (deterministic, history-free, no package-level writes)
+func VP_PURE() {
+	n := vpConfig("n")
+	content := vpString("c", n)
+	for i := 0; i < n; i++ {
+		vpAssume(content[i] >= '0' && content[i] <= '9')
+	}
+	vpTrackGlobals()
+	a, errA := Encode(content, false)
+	_, _ = Encode("123456", true)
+	b, errB := Encode(content, false)
+	vpAssert((errA == nil) == (errB == nil), "the same call succeeds or fails the same way every time ")
+	if errA == nil && errB == nil {
+		vpAssert(a.Bounds() == b.Bounds() && a.Content() == b.Content(), "the same call returns the same barcode whatever was encoded before")
+		if a.Bounds() == b.Bounds() {
+			for x := 0; x < a.Bounds().Dx(); x++ {
+				vpAssert(a.At(x, 0) == b.At(x, 0), "the same call returns the same pixels whatever was encoded before")
+			}
+		}
+	}
+	vpAssert(vpGlobalWrites() == 0, "no package-level state is written")
+	vpCover("reached", true)
+}
